@@ -176,6 +176,54 @@ def walk(rng, universe, narrows, style, idprob):
     return ops
 
 
+def walk_cycles(rng, universe, narrows):
+    """many simultaneously open cycles: all vertices and most edges first (no triangle), then a churn of triangle and edge
+    insertions and removals - the diamonds of the algorithm then re-sum several chains at once"""
+    cells, faces, dim = universe
+    cof = {c: [] for c in cells}
+    for c in cells:
+        for f in faces[c]:
+            cof[f].append(c)
+    keys, fv = Keys(rng), Fv(rng)
+    present = {}
+    ops = []
+    nedges_all = sum(1 for c in cells if dim[c] == 1)
+    target = rng.randint(max(1, nedges_all - 3), nedges_all)
+
+    def insert(c):
+        k = keys.fresh(c)
+        bd = [present[f] for f in faces[c]]
+        rng.shuffle(bd)
+        present[c] = k
+        ops.append(("I", k, dim[c], fv.next(), bd))
+    while len(ops) < narrows:
+        ne = sum(1 for c in present if dim[c] == 1)
+        low = [c for c in cells if dim[c] <= 1 and c not in present and all(f in present for f in faces[c])]
+        if ne < target and low:
+            e = [c for c in low if dim[c] == 1]
+            insert(rng.choice(e) if e and rng.random() < 0.7 else rng.choice(low))
+            continue
+        break
+    while len(ops) < narrows:
+        ins = [c for c in cells if c not in present and all(f in present for f in faces[c])]
+        rem = [c for c in present if not any(d in present for d in cof[c]) and dim[c] >= 1]
+        hi = [c for c in ins if dim[c] >= 2]
+        r = rng.random()
+        if hi and r < 0.45:
+            insert(rng.choice(hi))
+        elif rem and r < 0.85:
+            c = rng.choice(rem)
+            ops.append(("R", present.pop(c), fv.next()))
+        elif ins:
+            insert(rng.choice(ins))
+        elif rem:
+            c = rng.choice(rem)
+            ops.append(("R", present.pop(c), fv.next()))
+        else:
+            break
+    return ops
+
+
 def kernel_basis(vecs):
     """vecs: list of int bitmasks; returns combinations (bitmasks over the input indices) spanning the kernel"""
     piv = {}
@@ -401,7 +449,11 @@ def generate(rng, tier):
         style = rng.choice(["grow", "mixed", "mixed", "churn", "churn", "updown", "insonly"])
         narrows = rng.choice([4, 8, 12, 16, 20, 25, 30, 30])
         idprob = rng.choice([0, 0, 0, 0.08, 0.2])
-        if r < 0.55:
+        if r < 0.12:
+            nv = rng.choice([5, 5, 6])
+            u = unis.setdefault(("s", nv, 2), simplicial_universe(nv, 2))
+            ops, cls, style = walk_cycles(rng, u, rng.choice([30, 40, 50, 60])), "simplicial", "cycles"
+        elif r < 0.55:
             nv = rng.choice([2, 3, 4, 4, 5, 5, 6, 6])
             md = rng.choice([1, 2, 2, 3, 3])
             u = unis.setdefault(("s", nv, md), simplicial_universe(nv, md))
